@@ -53,6 +53,11 @@ MORE_GUARDS = [
     ("labelsOK", "{S}.labelsOKB"),        # every automaton edge is labelled with a node type of the schema (C11 `fit_emits_wf`)
     ("textStableC", "textStableC {S}"),   # Bool form of C01's `TextStable` (C11 `coherent_invariant`, C12)
     ("closable", "{S}.closableB"),        # `fill_before(Fragment.empty, True)` is never `None` (C11 `insertInline_emits_valid_payload`)
+    # the guards of C11 `delete_applies` (lean/PM/DeleteGuards.lean)
+    ("joinCompat", "joinCompatB {S}"),        # automata that share an edge label belong to `compatible_content` types
+    ("reopenOK", "reopenOKB {S}"),            # every state is covered by a state reachable over generatable types
+    ("textAbsorb", "textAbsorbB {S}"),        # reading a text node never loses a continuation
+    ("inlineUniform", "inlineUniformB {S}"),  # automata of types with inline content: the same edges at every state
 ]
 # guards outside the bundle: they hold of a part of the family only
 EXTRA_GUARDS = [
@@ -63,9 +68,9 @@ EXTRA_GUARDS = [
 # checks report as a broken obligation.
 EXPECT_FALSE = {
     "marks-x": {"textStable"},                       # `caption` has content `inline+`: its automaton has two states
-    "bridge": {"compatTrans"},                       # built for the purpose (C04 guard cases)
-    "bridge-local": {"compatTrans"},
-    "optional-text-local": {"textLoop", "textStable"},   # `text?`
+    "bridge": {"compatTrans", "joinCompat"},         # built for the purpose (C04 guard cases): A "p q*" and B "q+" share `q`
+    "bridge-local": {"compatTrans", "joinCompat"},
+    "optional-text-local": {"textLoop", "textStable", "textAbsorb", "inlineUniform"},   # `text?`
 }
 
 
@@ -374,6 +379,7 @@ def render(items):
     for field, term in GUARDS + MORE_GUARDS + EXTRA_GUARDS:
         Field = field[0].upper() + field[1:]
         lg = [HEADER.rstrip("\n"), "import Gen.Schemas", "import Props.Family", "import PM.Structure2", "import PM.FitGuards",
+              "import PM.DeleteGuards",
               "namespace PM.Gen.Guards",
               "open PM PM.FromDom PM.Gen.Schemas", ""]
         for name, ident, fam, sd, dump in items:
